@@ -1115,3 +1115,272 @@ func c10RandPolicy(r interface{ Intn(int) int }, tc *c10Case) {
 		}
 	}
 }
+
+// ---------------------------------------------------------------------------- wire lane
+
+const c10Alnum = "abcdefghijklmnopqrstuvwxyz0123456789"
+
+func c10Word(r interface{ Intn(int) int }, special bool) string {
+	n := 1 + r.Intn(6)
+	b := make([]byte, 0, n+2)
+	for i := 0; i < n; i++ {
+		b = append(b, c10Alnum[r.Intn(len(c10Alnum))])
+	}
+	s := string(b)
+	if special && r.Intn(3) == 0 {
+		s += []string{" x", "&y", "=z", "%41", "+p", "é", "a/b?c"}[r.Intn(7)]
+	}
+	return s
+}
+
+// c10Text asserts the law the model's `detect` parameter is instantiated with: on the
+// generator's alphabet http.DetectContentType answers text/plain, and application/octet-stream
+// as soon as the sniffed buffer contains a NUL (the zero padding of a short upload).
+func c10Text(s string) string {
+	if ct := http.DetectContentType([]byte(s)); ct != "text/plain; charset=utf-8" {
+		panic("c10: generator produced non-text content: " + ct)
+	}
+	if len(s) < 512 {
+		if ct := http.DetectContentType(append([]byte(s), make([]byte, 512-len(s))...)); ct != "application/octet-stream" {
+			panic("c10: padded sniff buffer detected as " + ct)
+		}
+	}
+	return s
+}
+
+// c10RandShape draws client- and request-level cookies / headers / query / form data and a body.
+func c10RandShape(r interface{ Intn(int) int }, tc *c10Case) (mode string) {
+	tc.method = []string{"POST", "POST", "POST", "POST", "PUT", "PATCH", "DELETE", "GET", "GET", "HEAD", "OPTIONS", "POST"}[r.Intn(12)]
+	tc.allowGet = r.Intn(7) != 0
+	tc.url = "http://c10.test/" + c10Word(r, false)
+	if r.Intn(5) >= 2 {
+		for i := 0; i < 1+r.Intn(2); i++ {
+			tc.cCookies = append(tc.cCookies, [2]string{"c" + strconv.Itoa(i), c10Word(r, false)})
+		}
+	}
+	for i := 0; i < r.Intn(3); i++ {
+		tc.cookies = append(tc.cookies, [2]string{"r" + strconv.Itoa(i), c10Word(r, false)})
+	}
+	shared := r.Intn(3) == 0
+	if r.Intn(2) == 0 {
+		tc.cHeaders = append(tc.cHeaders, c10KV{"X-C1", []string{c10Word(r, false)}})
+	}
+	if shared {
+		tc.cHeaders = append(tc.cHeaders, c10KV{"X-Shared", []string{"client"}})
+		tc.headers = append(tc.headers, c10KV{"X-Shared", []string{"request"}})
+	}
+	if r.Intn(8) == 0 {
+		tc.cHeaders = append(tc.cHeaders, c10KV{"Content-Type", []string{"text/x-client"}})
+	}
+	if r.Intn(2) == 0 {
+		tc.headers = append(tc.headers, c10KV{"X-R1", []string{c10Word(r, false) + " v"}})
+	}
+	if r.Intn(7) == 0 {
+		tc.headers = append(tc.headers, c10KV{"Content-Type", []string{[]string{"application/octet-stream", "text/x-req"}[r.Intn(2)]}})
+	}
+	if r.Intn(2) == 0 {
+		tc.cQuery = append(tc.cQuery, c10KV{"cq", []string{c10Word(r, true)}})
+		if r.Intn(2) == 0 {
+			tc.cQuery = append(tc.cQuery, c10KV{"sq", []string{"client1", "client2"}})
+			if r.Intn(2) == 0 {
+				tc.query = append(tc.query, c10KV{"sq", []string{c10Word(r, true)}})
+			}
+		}
+	}
+	if r.Intn(2) == 0 {
+		vs := []string{c10Word(r, true)}
+		if r.Intn(3) == 0 {
+			vs = append(vs, c10Word(r, false))
+		}
+		tc.query = append(tc.query, c10KV{"rq", vs})
+	}
+	form := func(prefix string) []c10KV {
+		var l []c10KV
+		for i := 0; i < 1+r.Intn(2); i++ {
+			vs := []string{c10Word(r, true)}
+			if r.Intn(3) == 0 {
+				vs = append(vs, c10Word(r, true))
+			}
+			l = append(l, c10KV{prefix + strconv.Itoa(i), vs})
+		}
+		return l
+	}
+	tc.body = "n"
+	m := r.Intn(12)
+	switch m {
+	case 0:
+		mode = "none"
+	case 1, 2:
+		mode = "bytes"
+		tc.body = "b" + c10Text(c10Word(r, true))
+	case 3:
+		mode = "getbody"
+		tc.body = "u" + c10Text(c10Word(r, true))
+	case 4:
+		mode = "marshal"
+		tc.body = "m" + c10Word(r, false)
+	case 5:
+		mode = "reader"
+		tc.body = "r" + c10Text(c10Word(r, true))
+	case 6, 7:
+		mode = "form"
+		tc.form = form("f")
+		if r.Intn(4) == 0 {
+			tc.body = "b" + c10Text(c10Word(r, false)) // the form wins
+		}
+	case 8:
+		mode = "ordered"
+		for i := 0; i < 1+r.Intn(3); i++ {
+			tc.ordered = append(tc.ordered, [2]string{[]string{"z", "a", "m"}[r.Intn(3)], c10Word(r, true)})
+		}
+	case 9, 10:
+		mode = "multipart-files"
+		for i := 0; i < 1+r.Intn(3); i++ {
+			f := c10File{param: "p" + strconv.Itoa(i), name: "f" + strconv.Itoa(i) + ".txt", content: c10Text(strings.Repeat(c10Word(r, true), 1+r.Intn(3)))}
+			switch k := r.Intn(20); {
+			case k < 6:
+				f.kind = "b"
+				if r.Intn(3) == 0 {
+					f.ctype = "application/x-custom"
+				}
+			case k < 12:
+				f.kind = "p"
+			case k < 17:
+				f.kind = "s"
+			default:
+				f.kind = "r"
+			}
+			if r.Intn(12) == 0 {
+				f.content = c10Text(strings.Repeat("0123456789abcdef", 40)) // longer than the 512-byte sniff
+			}
+			tc.files = append(tc.files, f)
+		}
+		tc.multipart = true
+		switch r.Intn(3) {
+		case 0:
+			tc.form = form("f")
+		case 1:
+			tc.ordered = append(tc.ordered, [2]string{"o", c10Word(r, true)})
+		}
+	default:
+		mode = "multipart-fields"
+		tc.multipart = true
+		tc.form = form("f")
+	}
+	// client-level form data: never together with a multipart request (C17 owns that corner)
+	if !tc.multipart && r.Intn(3) == 0 {
+		tc.cForm = form([]string{"cf", "f"}[r.Intn(2)])
+	}
+	tc.trace = r.Intn(3) == 0
+	tc.dump = r.Intn(3) == 0
+	tc.useSend = r.Intn(2) == 0
+	return mode
+}
+
+// TestVerif_C10_wire: what successive attempts put on the wire, over request shapes.
+func TestVerif_C10_wire(t *testing.T) {
+	s := verifh.New(t, "C10", "wire",
+		"random request shapes: client- and request-level cookies, headers (shared keys, Content-Type at either level), query (request key overriding a client key, multi-valued), form data (map and ordered, client-level merge, values with characters that need escaping), bodies (none, bytes/string, GetBody func, marshalled map, io.Reader), multipart (fields only; files from bytes / path / seekable reader / non-rewindable reader, explicit and sniffed part content types, > 512-byte files), methods incl. payload-forbidden ones, trace and dump on; x retry count {-1,0,1,2,5} at either level x scripts of 1-4 failing outcomes then success; some hooks edit the request; every attempt's decoded wire request is compared with the model and with attempt 0; non-trivial = at least one retry")
+	r := s.Rand()
+	dir := t.TempDir()
+	var recs []c10Rec
+	hist := map[string]int{}
+	count := func(k string) { s.Count(k); hist[k]++ }
+	add := func(tc *c10Case, mode string) {
+		d, _ := os.MkdirTemp(dir, "c")
+		rec := c10Exec(tc, d)
+		os.RemoveAll(d)
+		recs = append(recs, rec)
+		count("mode:" + mode)
+		toks := strings.Split(rec.impl, " ")
+		nW := 0
+		for _, tk := range toks {
+			if tk[0] == 'W' {
+				nW++
+			}
+		}
+		if nW > 3 {
+			nW = 3
+		}
+		count(fmt.Sprintf("attempts:%d%s", nW, map[bool]string{true: "+", false: ""}[nW == 3]))
+		if toks[len(toks)-1] == "refused" {
+			count("refused")
+		}
+		if nW >= 2 {
+			count("retried:" + mode)
+		}
+	}
+	// the decide'd counter-examples of Req/Props/C10.lean, replayed on the code
+	for _, w := range c10Witnesses() {
+		add(w, "witness")
+	}
+	n := verifh.N(3000, 150000)
+	for i := 0; i < n; i++ {
+		tc := &c10Case{}
+		mode := c10RandShape(r, tc)
+		cnt := "n=" + []string{"-1", "0", "1", "2", "5", "2", "2", "5"}[r.Intn(8)]
+		iv := []string{"i=f1", "i=x0", "i=x3", "i=f2"}[r.Intn(4)]
+		if r.Intn(2) == 0 {
+			tc.clientOps = []string{cnt, iv}
+		} else {
+			tc.reqOps = []string{iv, cnt}
+		}
+		fails := r.Intn(4)
+		if r.Intn(3) == 0 {
+			// condition-driven retries on status codes
+			tc.conds = []string{"G500"}
+			tc.reqOps = append(tc.reqOps, "ac0")
+			for j := 0; j < fails; j++ {
+				tc.script = append(tc.script, []string{"s503", "s500", "b502"}[r.Intn(3)])
+			}
+		} else {
+			for j := 0; j < fails; j++ {
+				tc.script = append(tc.script, []string{"t", "t", "d", "b500", "z"}[r.Intn(5)])
+			}
+		}
+		tc.script = append(tc.script, []string{"s200", "s200", "s404", "t"}[r.Intn(4)], "c")
+		if r.Intn(6) == 0 {
+			acts := []string{"N", "H" + verifh.Hex("X-Retry") + ":" + verifh.Hex("yes"), "K" + verifh.Hex("hk") + ":" + verifh.Hex("1"), "Q" + verifh.Hex("rq") + ":" + verifh.Hex("h")}
+			if tc.body[0] == 'b' && len(tc.form) == 0 && len(tc.cForm) == 0 {
+				acts = append(acts, "B"+verifh.Hex("hooked"))
+			}
+			tc.hooks = []string{acts[r.Intn(len(acts))]}
+			tc.reqOps = append(tc.reqOps, "ah0")
+		}
+		if r.Intn(10) == 0 {
+			tc.after = []string{"F"}
+		}
+		add(tc, mode)
+	}
+	for _, need := range []string{"retried:bytes", "retried:form", "retried:ordered", "retried:multipart-files", "retried:multipart-fields", "retried:getbody", "retried:marshal", "retried:none", "refused", "mode:reader"} {
+		if hist[need] == 0 {
+			t.Errorf("generator never reached bucket %s", need)
+		}
+	}
+	c10Finish(s, recs)
+}
+
+// c10Witnesses: fixed cases — the counter-examples proved for the code as found
+// (Req/Props/C10.lean, `asFound_*`) and the non-vacuity examples.
+func c10Witnesses() []*c10Case {
+	return []*c10Case{
+		// cookie duplication (DESIGN §5 row 2)
+		{allowGet: true, method: "GET", url: "http://c10.test/w", body: "n", reqOps: []string{"n=2", "i=x0"},
+			cCookies: [][2]string{{"a", "1"}}, script: []string{"t", "t", "s200", "c"}},
+		// form duplication (row 3)
+		{allowGet: true, method: "POST", url: "http://c10.test/w", body: "n", reqOps: []string{"n=1", "i=x0"},
+			cForm: []c10KV{{"k", []string{"v"}}}, script: []string{"t", "s200", "c"}},
+		// response middleware erases the error (row 4)
+		{allowGet: true, method: "GET", url: "http://c10.test/w", body: "n", reqOps: []string{"n=2", "i=x0"},
+			after: []string{"F"}, script: []string{"t", "t", "s200", "c"}},
+		// (nil, err) wrapper with a retry due (row 6)
+		{allowGet: true, method: "GET", url: "http://c10.test/w", body: "n", reqOps: []string{"n=1", "i=x0"},
+			script: []string{"z", "s200", "c"}},
+		// unreplayable body refused up front / sent once without retries
+		{allowGet: true, method: "POST", url: "http://c10.test/w", body: "rdata", reqOps: []string{"n=1", "i=x0"}, script: []string{"t", "s200", "c"}},
+		{allowGet: true, method: "POST", url: "http://c10.test/w", body: "rdata", script: []string{"t", "c"}},
+		// unbounded for a negative count
+		{allowGet: true, method: "GET", url: "http://c10.test/w", body: "n", clientOps: []string{"n=-1", "i=x0"},
+			script: []string{"t", "t", "t", "t", "t", "t", "t", "t", "t", "t", "t", "t", "s200", "c"}},
+	}
+}
